@@ -184,3 +184,92 @@ class SequentialPlaceStep:
         return forall_int(lambda x, y, r: implies(not (x == c[0] and y == c[1]),
                                                   ((x, y, r) in g_free_post) == ((x, y, r) in old_g_free)
                                                   and implies((x, y, r) in g_free_post, g_free_post[(x, y, r)] == old_g_free[(x, y, r)])))
+
+
+# ---- the same step once more, for TERMINATION: the chip iterator cycles over n distinct chips --------------------------------------
+from pyvc.speclib import uf as _ufn   # noqa: E402
+
+
+def _cx(i):
+    return _ufn("cycle_x", i)
+
+
+def _cy(i):
+    return _ufn("cycle_y", i)
+
+
+def _ufz(name, t):
+    return z3.Function("uf_" + name, z3.IntSort(), z3.IntSort())(t)
+
+
+def _next_in_cycle(E, args, kwargs, st, node):
+    """next(chips_iter) for itertools.cycle over the working chips: the chip at the next position of the cycle (positions count
+    up; the chips repeat with period n - see the precondition)"""
+    it = args[0]
+    k1 = it.fields["pos"] + 1
+    s = st.copy()
+    s.env = dict(s.env)
+    s.env["chips_iter"] = _ObjV("ChipIter", {"pos": k1})
+    return [(s, (_ufz("cycle_x", k1), _ufz("cycle_y", k1)))]
+
+
+@contract("rig/place_and_route/place/sequential.py::place@forbody:3", variant="termination")
+class SequentialPlaceStepTerminates:
+    """the search for a chip ENDS: starting from the chip of the last success (where every search starts), the iterator offers
+    each of the n working chips once; the search stops at the first that has room, or - having come round to where it started -
+    with InsufficientResourceError.  It never goes round twice and never spins."""
+    fragment_head = "for vertex in movable_vertices:"
+    properties = ("C02",)
+    params = dict(vertex=TInt(), cur_chip=XY, last_successful_chip=XY, placements=_TMap(TInt(), XY),
+                  machine=TRec("Machine"), vertices_resources=TRec("VerticesResources"), chips_iter=TRec("ChipIter", pos=TInt()),
+                  g_free=CHIPRES, g_need=RES, g_n=TInt(1, None))
+    fragment_result = ("cur_chip", "last_successful_chip")
+    modular = ("rig/place_and_route/place/utils.py::subtract_resources", "rig/place_and_route/place/utils.py::overallocated")
+    externals = {"Machine.__getitem__": _machine_getitem, "Machine.__setitem__": _machine_setitem,
+                 "VerticesResources.__getitem__": _need_of_vertex, "next": _next_in_cycle}
+    options = {"var_shapes": {"resources_if_placed": RES, "chips_iter": TRec("ChipIter", pos=TInt())}}
+    raises = {"InsufficientResourceError": None}
+    loop_headers = {1: "while True:"}
+    assumptions = ["itertools.cycle over the n >= 1 distinct working chips: position k of the iterator holds chip (cycle_x(k), cycle_y(k)), the chips of "
+                   "n consecutive positions are pairwise distinct and position k + n holds the chip of position k"]
+
+    def native(vertex):
+        _skip()
+
+    def requires(cur_chip, last_successful_chip, chips_iter, g_n):
+        k0 = chips_iter.pos
+        return (cur_chip == (_cx(k0), _cy(k0))
+                # every search starts where the last one succeeded (established before the loop and by every success)
+                and last_successful_chip == cur_chip
+                and forall_int(lambda i: implies(k0 < i < k0 + g_n, not (_cx(i) == _cx(k0) and _cy(i) == _cy(k0))))
+                and _cx(k0 + g_n) == _cx(k0) and _cy(k0 + g_n) == _cy(k0))
+
+    def raises_InsufficientResourceError(chips_iter_post, chips_iter, g_n):
+        # only after every chip was offered once
+        return chips_iter_post.pos == chips_iter.pos + g_n
+
+    def inv_1_not_yet_round(cur_chip, last_successful_chip, chips_iter, old_chips_iter, g_n):
+        k0 = old_chips_iter.pos
+        return (k0 <= chips_iter.pos < k0 + g_n and cur_chip == (_cx(chips_iter.pos), _cy(chips_iter.pos))
+                and last_successful_chip == (_cx(k0), _cy(k0)))
+
+    def variant_1(chips_iter, old_chips_iter, g_n):
+        return old_chips_iter.pos + g_n - chips_iter.pos
+
+    def ensures_the_next_search_starts_where_this_one_succeeded(result):
+        return result[1] == result[0]
+
+
+@contract("rig/place_and_route/place/sequential.py::place@seq:10:1")
+class SequentialPlaceSearchStart:
+    """before the first vertex: the search is marked as starting at the first chip offered (the precondition of the step above)"""
+    fragment_head = "last_successful_chip = ..."
+    properties = ("C02",)
+    params = dict(cur_chip=XY)
+    fragment_result = ("last_successful_chip",)
+
+    def native(cur_chip):
+        _skip()
+
+    def ensures_search_starts_at_the_first_chip(cur_chip, result):
+        return result[0] == cur_chip
